@@ -217,6 +217,7 @@ func runC09(c *Check) {
 	c.MinInstances("C09-R13", 1)
 	ruleNilGuard(c, p)
 	ruleBlobBytesBoundsChecked(c, p, "C09-R14")
+	ruleFetchedHeightIsExamined(c, p, "C09-R15")
 	ruleHandOffNotUnderDeadline(c, p, "C09-R9")
 	ruleMetricsPreBound(c, p, "C09-R10", []*ssa.Function{p.MustFunc(mgrM("RetrieveLoop"))}, 6)
 	c.MinInstances("C09-R10", 1)
@@ -1576,4 +1577,58 @@ func ruleBlobBytesBoundsChecked(c *Check, p *Prog, rule string) {
 	if n == 0 {
 		c.OK(rule, "scan ⟂ blob bytes only handed on whole", fnName(rl), p.Pos(rl.Pos()), "no function of the block package slices or indexes a blob's raw bytes in the scan", true)
 	}
+}
+
+// ruleFetchedHeightIsExamined (C09-R15): a DA height that was fetched successfully is examined —
+// every blob of it goes to the handlers — before the scan moves on. After the success edge of the
+// fetch the only non-error return that does not pass the loop over the blobs is the "nothing at
+// this height" answer of the DA layer itself; a shortcut on metadata of the DA block (its
+// timestamp against the genesis time, its size, its proposer) skips blobs that are there: the DA
+// block's clock is not the chain's, and the first blocks of a chain can sit in a DA block stamped
+// before the genesis time.
+func ruleFetchedHeightIsExamined(c *Check, p *Prog, rule string) {
+	c.Doc(rule, "EO: in the function that fetches a DA height, every path from the success edge of the fetch to a non-error return passes the head of the loop over the fetched blobs, or the edge on which the DA layer's own status says NotFound: no early return on other grounds.")
+	var fn *ssa.Function
+	for _, f := range funcsCalling(p, rootPath+"/block", func(n string) bool { return strings.HasSuffix(n, "block.Manager).fetchBlobs") }) {
+		if f.Parent() == nil {
+			fn = f
+		}
+	}
+	if fn == nil {
+		c.Unk(rule, "scan step", "", "", "anchor lost: the function that fetches a DA height")
+		return
+	}
+	g := BuildECFG(p, fn, ownPkgOpts(rootPath+"/block", 1))
+	c.NoteGraph(g)
+	fetchOK := g.Select(ErrNilEdge(func(t *Term) bool { return t.IsCall("block.Manager).fetchBlobs") }))
+	consts := enumConsts(p, daPkg, "StatusCode")
+	nf := fmt.Sprint(consts["StatusNotFound"])
+	notFound := g.Select(EdgeWhere(func(t *Term, pol bool, _ *Node) bool {
+		t, pol = normFact(t, pol)
+		return pol && t.Op == "bin" && t.Name == "==" && len(t.Args) == 2 && strings.HasSuffix(t.Args[0].unconv().String(), ".Code") && t.Args[1].unconv().Name == nf
+	}))
+	handlers := g.Select(func(x *Node) bool {
+		cn := CallName(x)
+		return strings.HasSuffix(cn, "block.Manager).handlePotentialHeader") || strings.HasSuffix(cn, "block.Manager).handlePotentialData")
+	})
+	if len(fetchOK) == 0 || len(handlers) == 0 {
+		c.Unk(rule, fnShort(fn)+" ⟂ fetched height is examined", fnName(fn), "", fmt.Sprintf("anchor lost: %d checked fetches, %d hand-overs to the blob handlers", len(fetchOK), len(handlers)))
+		return
+	}
+	var heads []*Node
+	for _, h := range handlers {
+		if hb := loopHeaderOf(h.In.Block()); hb != nil {
+			if hn := g.headNode(h.Ctx, hb); hn != nil {
+				heads = append(heads, hn)
+			}
+		}
+	}
+	if len(heads) == 0 {
+		c.Unk(rule, fnShort(fn)+" ⟂ fetched height is examined", fnName(fn), "", "anchor lost: the loop over the fetched blobs")
+		return
+	}
+	okExits := g.Select(g.SuccessExits())
+	c.Decide(rule, fnShort(fn)+" ⟂ fetched height is examined", fnName(fn), p.InstrPos(fetchOK[0].In), "after a successful fetch the step returns without error only through the loop over the blobs or the DA layer's NotFound",
+		"after a height was fetched successfully the step can return without error and without looking at its blobs (an early return on something other than the DA layer's NotFound status — the DA block's timestamp, for example): the scan moves past the height, and genuine headers and data that sit there are never handed to sync", g,
+		g.PathAvoiding(fetchOK, nodeSet(okExits), orPred(nodeSet(notFound), nodeSet(heads))))
 }
